@@ -290,9 +290,34 @@ fn to_f(v: &Val<i32, f64>) -> Option<f64> {
     }
 }
 
+/// a branch that is a long parenthesis-free chain (18..40 operands on the nesting level of the
+/// `if`): the rules are applied in priority order also when one level of a directly parsed deep
+/// expression carries dozens of operators
+fn long_branch(rng: &mut Rng, table: &Table) -> Tree {
+    let idx = |n: &str| table.iter().position(|o| o.name == n).unwrap();
+    let n = rng.range(18, 40);
+    let operands: Vec<Tree> = (0..n)
+        .map(|_| match rng.below(6) {
+            0 => Tree::lit(["0.5", "2.0", "1.5", "3.0"][rng.below(4)]),
+            1 => Tree::lit(["2", "3", "5", "7"][rng.below(4)]),
+            _ => Tree::var(["x", "y"][rng.below(2)]),
+        })
+        .collect();
+    let ops: Vec<usize> = (0..n - 1).map(|_| idx(["-", "-", "*", "+", "-", "*", "/"][rng.below(7)])).collect();
+    let chain = tree_from_chain(&operands, &ops, table);
+    let cond = Tree::bin(idx([">", "<"][rng.below(2)]), Tree::var("x"), Tree::lit(["0.5", "1", "1.5"][rng.below(3)]));
+    let other = arith(rng, table, 2);
+    if rng.chance(1, 2) {
+        Tree::bin(idx("else"), Tree::bin(idx("if"), chain, cond), other)
+    } else {
+        Tree::bin(idx("else"), Tree::bin(idx("if"), other, cond), chain)
+    }
+}
+
 fn case(rng: &mut Rng, table: &Table, st: &mut Stats) {
     let nest = rng.range(0, 3);
-    let tree = piece(rng, table, nest);
+    let long = rng.chance(1, 12);
+    let tree = if long { long_branch(rng, table) } else { piece(rng, table, nest) };
     let vars = tree.vars();
     if vars.is_empty() {
         return;
@@ -301,14 +326,17 @@ fn case(rng: &mut Rng, table: &Table, st: &mut Stats) {
         st.bump("generated_trees_in_known_finding_class_excluded");
         return;
     }
-    let cfg = if rng.chance(1, 2) { RenderCfg::plain() } else { RenderCfg { extra_paren: rng.below(3), space: rng.below(3), brace: rng.below(2), ..RenderCfg::plain() } };
+    let cfg = if long || rng.chance(1, 2) { RenderCfg::plain() } else { RenderCfg { extra_paren: rng.below(3), space: rng.below(3), brace: rng.below(2), ..RenderCfg::plain() } };
     let text = render(&tree, table, rng, &cfg);
+    if long {
+        st.bump("long_single_level_branches");
+    }
     let wrt = rng.below(vars.len());
     st.bump("cases");
     st.class(tree.shape_key(table));
     let nested = text.matches(" if ").count() + text.matches(")if").count();
     st.bump(&format!("piecewise_nesting_{}", nested.min(3)));
-    let how = rng.below(4);
+    let how = if long && rng.chance(2, 3) { 2 } else { rng.below(4) };
     let deep = how == 1;
     let d = catch(|| -> Result<exmex::FlatExVal<i32, f64>, String> {
         if how >= 2 {
@@ -384,6 +412,9 @@ fn case(rng: &mut Rng, table: &Table, st: &mut Stats) {
         seen_true += ct;
         seen_false += cf;
         st.bump("points_judged");
+        if long && how >= 2 {
+            st.bump("points_judged_long_single_level_branch_deep_parse");
+        }
         let vals: Vec<Val<i32, f64>> = p.iter().map(|x| Val::Float(*x)).collect();
         let got = catch(|| d.eval(&vals));
         let gotf = match &got {
@@ -408,6 +439,176 @@ fn case(rng: &mut Rng, table: &Table, st: &mut Stats) {
     }
     if st.samples.len() < st.max_samples && nested >= 1 && text.len() < 60 {
         st.sample(json!({"text": text, "wrt": vars[wrt], "derivative_printed": d.unparse()}));
+    }
+}
+
+/// Integer-typed evaluation points: piecewise polynomials over integer literals (+ - * and
+/// literal powers, no division), variables bound to Int values, conditions comparing
+/// polynomials.  Everything is an integer, the reference (value, derivative) is exact; the
+/// wide instantiation Val<i64, f64> keeps exmex's derivative form away from overflow.
+fn int_poly(rng: &mut Rng, table: &Table, depth: usize) -> Tree {
+    let idx = |n: &str| table.iter().position(|o| o.name == n).unwrap();
+    if depth == 0 || rng.chance(1, 4) {
+        return if rng.chance(2, 3) { Tree::var(["x", "y"][rng.below(2)]) } else { Tree::lit(["1", "2", "3", "4"][rng.below(4)]) };
+    }
+    match rng.below(8) {
+        0 => Tree::un(idx("-"), int_poly(rng, table, depth - 1)),
+        1..=2 => Tree::bin(idx("^"), int_poly(rng, table, depth - 1), Tree::lit(["2", "3", "4"][rng.below(3)])),
+        _ => Tree::bin(idx(["+", "-", "*"][rng.below(3)]), int_poly(rng, table, depth - 1), int_poly(rng, table, depth - 1)),
+    }
+}
+
+/// exact (value, derivative, on a branch boundary); None = outside +-10^4 somewhere
+fn int_eval(t: &Tree, table: &Table, vars: &[String], p: &[i64], wrt: usize, boundary: &mut bool) -> Option<Option<(i64, i64)>> {
+    const LIM: i64 = 10_000;
+    let ok = |v: i64, d: i64| if v.abs() <= LIM && d.abs() <= LIM { Some(Some((v, d))) } else { None };
+    match t {
+        Tree::Lit(s) => ok(s.parse().unwrap(), 0),
+        Tree::Var(n) => {
+            let i = vars.iter().position(|v| v == n).unwrap();
+            ok(p[i], (i == wrt) as i64)
+        }
+        Tree::Const(_) => None,
+        Tree::Un(o, a) => {
+            let a = int_eval(a, table, vars, p, wrt, boundary)?;
+            match (table[*o].name, a) {
+                ("-", Some((v, d))) => ok(-v, -d),
+                ("+", x) => Some(x),
+                _ => None,
+            }
+        }
+        Tree::Bin(o, a, b) => {
+            let name = table[*o].name;
+            let a = int_eval(a, table, vars, p, wrt, boundary)?;
+            if name == "else" {
+                return match a {
+                    Some(x) => Some(Some(x)),
+                    None => int_eval(b, table, vars, p, wrt, boundary),
+                };
+            }
+            if name == "if" {
+                // b is the condition
+                let Tree::Bin(c, l, r) = &**b_of(t) else { return None };
+                let l = int_eval(l, table, vars, p, wrt, boundary)??;
+                let r = int_eval(r, table, vars, p, wrt, boundary)??;
+                if l.0 == r.0 {
+                    *boundary = true;
+                }
+                let holds = match table[*c].name {
+                    "<" => l.0 < r.0,
+                    "<=" => l.0 <= r.0,
+                    ">" => l.0 > r.0,
+                    ">=" => l.0 >= r.0,
+                    _ => return None,
+                };
+                return Some(if holds { a } else { None });
+            }
+            let b = int_eval(b, table, vars, p, wrt, boundary)?;
+            let ((x, dx), (y, dy)) = (a?, b?);
+            match name {
+                "+" => ok(x + y, dx + dy),
+                "-" => ok(x - y, dx - dy),
+                "*" => ok(x.checked_mul(y)?, dx.checked_mul(y)?.checked_add(x.checked_mul(dy)?)?),
+                "^" => {
+                    let e = u32::try_from(y).ok()?;
+                    if e == 0 || e > 4 {
+                        return None;
+                    }
+                    let pw = x.checked_pow(e - 1)?;
+                    ok(pw.checked_mul(x)?, pw.checked_mul(y)?.checked_mul(dx)?)
+                }
+                _ => None,
+            }
+        }
+    }
+}
+fn b_of(t: &Tree) -> &Box<Tree> {
+    match t {
+        Tree::Bin(_, _, b) => b,
+        _ => unreachable!(),
+    }
+}
+
+fn int_case(rng: &mut Rng, table: &Table, st: &mut Stats) {
+    let idx = |n: &str| table.iter().position(|o| o.name == n).unwrap();
+    let mut tree = {
+        let f = int_poly(rng, table, 2);
+        let g = int_poly(rng, table, 2);
+        let mut cl = int_poly(rng, table, 1);
+        while !cl.has_var() {
+            cl = int_poly(rng, table, 1);
+        }
+        let cr = if rng.chance(1, 2) { Tree::lit(["0", "1", "2", "3"][rng.below(4)]) } else { int_poly(rng, table, 1) };
+        let cond = Tree::bin(idx(["<", "<=", ">", ">="][rng.below(4)]), cl, cr);
+        Tree::bin(idx("else"), Tree::bin(idx("if"), f, cond), g)
+    };
+    if rng.chance(1, 3) {
+        let other = int_poly(rng, table, 1);
+        let op = idx(["+", "*", "-"][rng.below(3)]);
+        tree = if rng.chance(1, 2) { Tree::bin(op, tree, other) } else { Tree::bin(op, other, tree) };
+    }
+    let vars = tree.vars();
+    if vars.is_empty() {
+        return;
+    }
+    let text = render(&tree, table, rng, &RenderCfg::plain());
+    let wrt = rng.below(vars.len());
+    st.bump("cases");
+    st.bump("integer_point_cases");
+    st.class(("int", tree.shape_key(table)));
+    type VI = Val<i64, f64>;
+    let how = rng.below(3);
+    let d = catch(|| -> Result<exmex::FlatExVal<i64, f64>, String> {
+        let e = |x: exmex::ExError| x.msg().to_string();
+        match how {
+            0 => exmex::parse_val::<i64, f64>(&text).map_err(e)?.partial(wrt).map_err(e),
+            1 => exmex::FlatExVal::<i64, f64>::from_deepex(exmex::parse_val::<i64, f64>(&text).map_err(e)?.to_deepex().map_err(e)?.partial(wrt).map_err(e)?).map_err(e),
+            _ => exmex::FlatExVal::<i64, f64>::from_deepex(exmex::DeepEx::<VI, exmex::ValOpsFactory<i64, f64>, exmex::ValMatcher>::parse(&text).map_err(e)?.partial(wrt).map_err(e)?).map_err(e),
+        }
+    });
+    let d = match d {
+        Ok(Ok(d)) => d,
+        Ok(Err(m)) => {
+            if m.contains("both zero") {
+                st.bump("zero_to_the_zero_errors_not_judged");
+            } else {
+                st.violation(format!("int-error|{text}"), text.len(), json!({"kind": "val-derivative-error", "text": text, "wrt": vars[wrt], "error": m}));
+            }
+            return;
+        }
+        Err(m) => {
+            st.violation(format!("int-panic|{text}"), text.len(), json!({"kind": "val-derivative-panic", "text": text, "wrt": vars[wrt], "panic": m}));
+            return;
+        }
+    };
+    for _ in 0..5 {
+        let p: Vec<i64> = (0..vars.len()).map(|_| rng.range(0, 7) as i64 - 3).collect();
+        let mut boundary = false;
+        let r = int_eval(&tree, table, &vars, &p, wrt, &mut boundary);
+        let Some(Some((_, want))) = r else {
+            st.bump("integer_points_out_of_range_not_judged");
+            continue;
+        };
+        if boundary {
+            st.bump("integer_points_on_a_branch_boundary_not_judged");
+            continue;
+        }
+        st.bump("integer_points_judged");
+        let vals: Vec<VI> = p.iter().map(|x| Val::Int(*x)).collect();
+        let got = catch(|| d.eval(&vals));
+        let gotf = match &got {
+            Ok(Ok(Val::Int(i))) => Some(*i as f64),
+            Ok(Ok(Val::Float(f))) => Some(*f),
+            _ => None,
+        };
+        if gotf != Some(want as f64) {
+            st.violation(
+                format!("int-value|{text}|d{}", vars[wrt]),
+                text.len(),
+                json!({"kind": "val-derivative-value-at-integer-point", "text": text, "wrt": vars[wrt], "variables": vars, "point": p, "got": format!("{got:?}"), "derivative_of_the_selected_branch": want, "derivative_text": d.unparse()}),
+            );
+            return;
+        }
     }
 }
 
@@ -437,14 +638,20 @@ pub fn run(ctx: &Ctx) -> i32 {
             known_catalogue(st);
         }
         let quota = share(n, w, ctx.threads);
-        for _ in 0..quota {
-            case(rng, &table, st);
+        for i in 0..quota {
+            if i % 8 == 3 {
+                int_case(rng, &table, st);
+            } else {
+                case(rng, &table, st);
+            }
         }
     });
     let report = Report::new(
-        "piecewise expressions `f if cond else g` (nesting 0..3, arithmetic and elementary functions around and inside, integer and float literals mixed, comparison conditions on the variables) rendered from reference trees, differentiated through parse_val(..).partial(i) and through DeepEx, evaluated at float points. Oracle: a typed dual-number evaluator that follows the documented typing (integer with integer stays integer incl. truncating division, integer meets float is promoted, comparisons give booleans, `if`/`else` select a branch) so that the reference derivative is the derivative of the branch selected at that point; 1e-9 relative tolerance at points 0.05 away from every singularity and branch boundary. Conditions are observed on both sides. The known-finding class K1 (quotient with an integer-typed constant divisor under a variable numerator) is excluded from the random generator by predicate and run as a fixed witness catalogue. distinct_nontrivial = distinct tree classes.",
+        "piecewise expressions `f if cond else g` (nesting 0..3, arithmetic and elementary functions around and inside, integer and float literals mixed, comparison conditions on the variables) rendered from reference trees, differentiated through parse_val(..).partial(i) and through DeepEx, evaluated at float points; branches that are parenthesis-free chains of 18..40 operands parsed directly as deep expressions; piecewise integer polynomials at integer-typed points (exact reference). Oracle: a typed dual-number evaluator that follows the documented typing (integer with integer stays integer incl. truncating division, integer meets float is promoted, comparisons give booleans, `if`/`else` select a branch) so that the reference derivative is the derivative of the branch selected at that point; 1e-9 relative tolerance at points 0.05 away from every singularity and branch boundary. Conditions are observed on both sides. The known-finding class K1 (quotient with an integer-typed constant divisor under a variable numerator) is excluded from the random generator by predicate and run as a fixed witness catalogue. distinct_nontrivial = distinct tree classes.",
     )
-    .assume("variables are bound to Float values (an Int-valued variable would make x/2 a truncating division)")
+    .assume("in the general family variables are bound to Float values (an Int-valued variable would make x/2 a truncating division); integer-typed points are used on the division-free polynomial family over Val<i64, f64>, where everything is exact")
+    .require("integer_points_judged", 5000)
+    .require("points_judged_long_single_level_branch_deep_parse", 1000)
     .require("points_judged", 20000)
     .require("cases_judged_on_both_sides_of_a_branch", 1000)
     .require("piecewise_nesting_2", 500)
